@@ -124,6 +124,9 @@ def _simp(e):
 # ------------------------------------------------------------------------------------------------
 # exploration context
 # ------------------------------------------------------------------------------------------------
+_PATH_IDS = itertools.count()
+
+
 class Ctx:
     cur = None
 
@@ -136,6 +139,7 @@ class Ctx:
         self.solver.set('timeout', feas_timeout_ms)
         self.deadline = deadline
         self.fresh_counter = itertools.count()
+        self.path_id = next(_PATH_IDS)
         self.pow_apps = {}  # exponent -> list of argument terms
         self.names = {}
         self.notes = []
@@ -152,7 +156,7 @@ class Ctx:
         return SymB(z3.Bool(name))
 
     def fresh(self, prefix, sort='real'):
-        n = '%s!%d' % (prefix, next(self.fresh_counter))
+        n = '%s!%d!p%d' % (prefix, next(self.fresh_counter), self.path_id)
         return z3.Real(n) if sort == 'real' else z3.Int(n)
 
     def choice(self, name, options):
@@ -251,6 +255,11 @@ class Ctx:
         e = float(e)
         f = z3.Function('pow_%r' % e, z3.RealSort(), z3.RealSort())
         x = real(x)
+        xs = _simp(x)
+        if z3.is_rational_value(xs):
+            v = float(xs.as_fraction())
+            if v > 0 or (v == 0 and e > 0):
+                return Sym(rv(math.pow(v, e)))
         self.pow_apps.setdefault(e, [])
         apps = self.pow_apps[e]
         # axioms for the new application relative to existing ones
@@ -488,6 +497,8 @@ class Sym:
             o = o._num()
         if not (isinstance(o, Sym) or _is_num(o) or isinstance(o, (bool, np.bool_))):
             return NotImplemented
+        if isinstance(o, (float, np.floating)) and math.isinf(o):
+            return bool(f(0.0, float(o)))
         a, b, _ = _coerce(self, o)
         return SymB(_simp(f(a, b)))
 
@@ -1005,3 +1016,82 @@ def concrete(fn):
         return fn()
     finally:
         Ctx.cur = prev
+
+
+# ------------------------------------------------------------------------------------------------
+# term utilities
+# ------------------------------------------------------------------------------------------------
+def free_consts(terms):
+    """uninterpreted constants occurring in the terms"""
+    seen, out, stack = set(), {}, list(terms)
+    while stack:
+        t = stack.pop()
+        if t.get_id() in seen:
+            continue
+        seen.add(t.get_id())
+        if z3.is_const(t) and t.decl().kind() == z3.Z3_OP_UNINTERPRETED:
+            out[str(t)] = t
+        else:
+            stack.extend(t.children())
+    return out
+
+
+def rename(terms, suffix, keep=()):
+    """copy of the terms with every uninterpreted constant renamed (except those named in keep)"""
+    keep = {str(k) for k in keep}
+    sub = []
+    for n, c in free_consts(terms).items():
+        if n in keep:
+            continue
+        sub.append((c, z3.Const(n + suffix, c.sort())))
+    return [z3.substitute(t, *sub) if sub else t for t in terms]
+
+
+def pow_apps(terms):
+    """applications of the uninterpreted power functions: {decl name: (decl, [args])}"""
+    seen, out, stack = set(), {}, list(terms)
+    while stack:
+        t = stack.pop()
+        if t.get_id() in seen:
+            continue
+        seen.add(t.get_id())
+        if z3.is_app(t) and t.num_args() == 1 and t.decl().name().startswith('pow_'):
+            d = out.setdefault(t.decl().name(), (t.decl(), []))
+            d[1].append(t.arg(0))
+        stack.extend(t.children())
+    return out
+
+
+def pow_axioms(terms):
+    """monotonicity / anchor axioms for all power-function applications in the terms (pairwise)"""
+    ax = []
+    for name, (f, args) in pow_apps(terms).items():
+        e = float(name[4:])
+        uniq = {}
+        for a in args:
+            uniq[a.get_id()] = a
+        args = list(uniq.values())
+        if e > 0:
+            args = args + [z3.RealVal(0), z3.RealVal(1)]
+        for a in args:
+            if e > 0:
+                ax.append(z3.Implies(a == 0, f(a) == 0))
+            ax.append(z3.Implies(a == 1, f(a) == 1))
+            ax.append(z3.Implies(a > 0, f(a) > 0))
+            sa = z3.simplify(a)
+            if z3.is_rational_value(sa):
+                v = float(sa.as_fraction())
+                if v > 0:
+                    ax.append(f(a) == rv(math.pow(v, e)))
+        for i in range(len(args)):
+            for j in range(i + 1, len(args)):
+                x, y = args[i], args[j]
+                if e > 0:
+                    ax.append(z3.Implies(z3.And(x >= 0, y >= 0), z3.And((x < y) == (f(x) < f(y)), (x == y) == (f(x) == f(y)))))
+                else:
+                    ax.append(z3.Implies(z3.And(x > 0, y > 0), z3.And((x < y) == (f(x) > f(y)), (x == y) == (f(x) == f(y)))))
+    return ax
+
+
+def zabs(t):
+    return z3.If(t >= 0, t, -t)
